@@ -854,7 +854,11 @@ theorem shapeInv_runQ (fuel : Nat) (w : W) (h : ShapeInv w) : ShapeInv (W.runQ f
     | some w' => simp only; exact ih _ (shapeInv_loopStep w w' h hl)
     | none =>
       simp only
-      have hs : ShapeInv { w with env := w.env.settle } := h.of_pool rfl rfl
+      have hs : ShapeInv (W.tryFinishStop { w with env := w.env.settle }) := by
+        unfold W.tryFinishStop
+        split
+        · exact h.of_pool rfl rfl
+        · exact h.of_pool rfl rfl
       split
       · exact hs
       · exact ih _ hs
